@@ -1826,3 +1826,72 @@ def m_ilog10(ex, n, a, f):
         d += 1
         p *= 10
     return some(ex, rt, d) if checked else d
+
+
+# --------------------------------------------------------------------------- VecDeque (as VecV)
+@model(r'^<std::collections::VecDeque<.*> as std::convert::From<std::vec::Vec<.*>>>::from$')
+def m_vecdeque_from_vec(ex, n, a, f):
+    v = ex.force(a[0])
+    return VecV(list(v.cells), v.elem)
+
+
+@model(r'^<std::vec::Vec<.*> as std::convert::From<std::collections::VecDeque<.*>>>::from$')
+def m_vec_from_vecdeque(ex, n, a, f):
+    v = ex.force(a[0])
+    return VecV(list(v.cells), v.elem)
+
+
+@model(r'^std::collections::VecDeque::<.*>::(new|with_capacity)$', r'^<std::collections::VecDeque<.*> as std::default::Default>::default$')
+def m_vecdeque_new(ex, n, a, f):
+    return VecV([])
+
+
+@model(r'^std::collections::VecDeque::<.*>::push_back$')
+def m_vecdeque_push_back(ex, n, a, f):
+    ex.deref(a[0]).cells.append(Cell(a[1]))
+    return UNIT
+
+
+@model(r'^std::collections::VecDeque::<.*>::push_front$')
+def m_vecdeque_push_front(ex, n, a, f):
+    ex.deref(a[0]).cells.insert(0, Cell(a[1]))
+    return UNIT
+
+
+@model(r'^std::collections::VecDeque::<.*>::(pop_front|pop_back)$')
+def m_vecdeque_pop(ex, n, a, f):
+    v = ex.deref(a[0])
+    rt = ret_ty(f)
+    if not v.cells:
+        return none(ex, rt)
+    return some(ex, rt, (v.cells.pop(0) if n.endswith('pop_front') else v.cells.pop()).v)
+
+
+@model(r'^std::collections::VecDeque::<.*>::(front|back)(_mut)?$')
+def m_vecdeque_front_back(ex, n, a, f):
+    v = ex.deref(a[0])
+    rt = ret_ty(f)
+    if not v.cells:
+        return none(ex, rt)
+    return some(ex, rt, Ref(v.cells[0] if '::front' in n else v.cells[-1]))
+
+
+@model(r'^std::collections::VecDeque::<.*>::(len|is_empty)$')
+def m_vecdeque_len(ex, n, a, f):
+    v = ex.deref(a[0])
+    return len(v.cells) if n.endswith('len') else len(v.cells) == 0
+
+
+@model(r'^std::collections::VecDeque::<.*>::(iter|iter_mut)$', r'^<&(mut )?std::collections::VecDeque<.*> as std::iter::IntoIterator>::into_iter$')
+def m_vecdeque_iter(ex, n, a, f):
+    return IterV(ex.deref(a[0]).cells)
+
+
+@model(r'^<std::collections::VecDeque<.*> as std::iter::IntoIterator>::into_iter$')
+def m_vecdeque_into_iter(ex, n, a, f):
+    return IterV(list(ex.force(a[0]).cells), by_value=True)
+
+
+@model(r'^<std::collections::vec_deque::(Iter|IterMut|IntoIter)<.*> as std::iter::(Iterator|DoubleEndedIterator)>::(next|next_back)$')
+def m_vecdeque_iter_next(ex, n, a, f):
+    return m_iter_next(ex, n, a, f) if n.endswith('::next') else m_iter_next_back(ex, n, a, f)
